@@ -4,6 +4,7 @@ package main
 // (writer side of the writer/reader agreement between parser and evaluator).
 
 import (
+	"fmt"
 	"go/token"
 	"go/types"
 	"sort"
@@ -25,6 +26,8 @@ type Wiring struct {
 	Built  map[string]bool         // node types the parser constructs ("ast.ForStmt")
 	memo   map[*ssa.Function]int   // 0 unknown, 1 in progress, 2 non-nil on success, 3 may be nil
 }
+
+var debugNonNil bool
 
 var wiringCache = map[*Prog]*Wiring{}
 
@@ -147,7 +150,18 @@ func (w *Wiring) mayNil(v ssa.Value, at *ssa.BasicBlock, seen map[ssa.Value]bool
 			if edgeImpliesNonNil(pred, x.Block(), e) {
 				continue
 			}
+			if ex, ok := e.(*ssa.Extract); ok && ex.Index == 0 {
+				// `v, err = f(); if err != nil { return }` whose success edge is this φ edge
+				if call, ok := ex.Tuple.(*ssa.Call); ok && errNilOnEdge(call, pred, x.Block()) {
+					if c := call.Call.StaticCallee(); c != nil && w.p.InModule(c) && w.nonNilOnSuccess(c) {
+						continue
+					}
+				}
+			}
 			if w.mayNil(e, pred, seen) {
+				if debugNonNil {
+					fmt.Println("    phi edge:", x.Name(), "<-", e.Name(), e.String(), "from block", pred.Index)
+				}
 				return true
 			}
 		}
@@ -229,6 +243,35 @@ func errCheckedBefore(call *ssa.Call, at *ssa.BasicBlock) bool {
 	return false
 }
 
+// errNilOnEdge: pred ends in a test of the call's error result and pred→blk is the side on which it is nil.
+func errNilOnEdge(call *ssa.Call, pred, blk *ssa.BasicBlock) bool {
+	if len(pred.Instrs) == 0 || len(pred.Succs) != 2 || pred.Succs[0] == pred.Succs[1] {
+		return false
+	}
+	iff, ok := pred.Instrs[len(pred.Instrs)-1].(*ssa.If)
+	if !ok {
+		return false
+	}
+	bo, ok := iff.Cond.(*ssa.BinOp)
+	if !ok || (bo.Op != token.EQL && bo.Op != token.NEQ) {
+		return false
+	}
+	var other ssa.Value
+	if isNilConst(bo.Y) {
+		other = bo.X
+	} else if isNilConst(bo.X) {
+		other = bo.Y
+	}
+	ex, ok := other.(*ssa.Extract)
+	if !ok || ex.Tuple != ssa.Value(call) || ex.Index != 1 {
+		return false
+	}
+	if bo.Op == token.NEQ {
+		return pred.Succs[1] == blk
+	}
+	return pred.Succs[0] == blk
+}
+
 // nonNilOnSuccess: every `return x, nil` of fn has a non-nil x.
 func (w *Wiring) nonNilOnSuccess(fn *ssa.Function) bool {
 	switch w.memo[fn] {
@@ -249,20 +292,48 @@ func (w *Wiring) nonNilOnSuccess(fn *ssa.Function) bool {
 			return
 		}
 		if !isNilConst(ret.Results[1]) {
-			// error return, or tail call passing both results through
-			if ex, isEx := ret.Results[1].(*ssa.Extract); isEx {
-				if call, isCall := ex.Tuple.(*ssa.Call); isCall {
-					if c := call.Call.StaticCallee(); c != nil && w.p.InModule(c) {
-						if !w.nonNilOnSuccess(c) {
-							ok = false
+			// tail call passing both results through
+			if ex, isEx := ret.Results[1].(*ssa.Extract); isEx && ex.Index == 1 {
+				if ex0, isEx0 := ret.Results[0].(*ssa.Extract); isEx0 && ex0.Tuple == ex.Tuple && ex0.Index == 0 {
+					if call, isCall := ex.Tuple.(*ssa.Call); isCall {
+						if c := call.Call.StaticCallee(); c != nil && w.p.InModule(c) {
+							if !w.nonNilOnSuccess(c) {
+								if debugNonNil {
+									fmt.Println("  tail call:", fn.Name(), "->", c.Name())
+								}
+								ok = false
+							}
+							return
 						}
+					}
+				}
+			}
+			// error return: the error is a fresh one (a call result) or was tested non-nil on the way here
+			if _, isCall := ret.Results[1].(*ssa.Call); isCall {
+				return
+			}
+			if _, isMk := ret.Results[1].(*ssa.MakeInterface); isMk {
+				return
+			}
+			for _, g := range GuardsAt(ret.Block()) {
+				if bo, isBo := g.Cond.(*ssa.BinOp); isBo && (bo.Op == token.NEQ || bo.Op == token.EQL) {
+					var other ssa.Value
+					if isNilConst(bo.Y) {
+						other = bo.X
+					} else if isNilConst(bo.X) {
+						other = bo.Y
+					}
+					if other == ret.Results[1] && ((bo.Op == token.NEQ && g.Truth) || (bo.Op == token.EQL && !g.Truth)) {
 						return
 					}
 				}
 			}
-			return
+			// the error may be nil here: the value returned with it counts as a success result
 		}
 		if w.mayNil(ret.Results[0], ret.Block(), map[ssa.Value]bool{}) {
+			if debugNonNil {
+				fmt.Println("  mayNil:", fn.Name(), w.p.InstrPos(ret), ret.Results[0].Name(), ret.Results[0].String())
+			}
 			ok = false
 		}
 	})
